@@ -30,11 +30,15 @@ func fnKey(fn *ssa.Function) string {
 // ---- parameters and entry assumptions ----
 
 func (e *FnExec) describeInputs(name string, v *Term, t types.Type, st *State, depth int) {
+	if depth > 4 || len(e.inputs) > 120 {
+		return
+	}
 	t = types.Unalias(t)
+	if isTimeTime(t) {
+		e.inputs = append(e.inputs, NamedTerm{name, v, "time.Time"})
+		return
+	}
 	if si := structOf(t); si != nil {
-		if depth > 2 {
-			return
-		}
 		for i := 0; i < si.typ.NumFields(); i++ {
 			e.describeInputs(name+"."+si.typ.Field(i).Name(), si.Get(v, i), si.typ.Field(i).Type(), st, depth+1)
 		}
@@ -43,16 +47,16 @@ func (e *FnExec) describeInputs(name string, v *Term, t types.Type, st *State, d
 	switch u := t.Underlying().(type) {
 	case *types.Pointer:
 		e.inputs = append(e.inputs, NamedTerm{name + "==nil", Eq(v, NilLoc), "bool"})
-		if depth < 2 && structOf(u.Elem()) != nil {
+		if structOf(u.Elem()) != nil && depth < 3 {
 			e.describeInputs("(*"+name+")", e.load(st, v, u.Elem()), u.Elem(), st, depth+1)
 		}
 		return
 	case *types.Slice:
 		e.inputs = append(e.inputs, NamedTerm{"len(" + name + ")", SLen(v), "int"}, NamedTerm{"cap(" + name + ")", SCap(v), "int"})
-		if depth < 2 {
-			for i := int64(0); i < 4; i++ {
+		if depth < 3 {
+			for i := int64(0); i < 3; i++ {
 				el := e.load(st, IdxLoc(SArr(v), Add(SOff(v), IntLit(i))), u.Elem())
-				e.describeInputs(fmt.Sprintf("%s[%d]", name, i), el, u.Elem(), st, depth+2)
+				e.describeInputs(fmt.Sprintf("%s[%d]", name, i), el, u.Elem(), st, depth+1)
 			}
 		}
 		return
@@ -62,7 +66,10 @@ func (e *FnExec) describeInputs(name string, v *Term, t types.Type, st *State, d
 	case *types.Interface:
 		e.inputs = append(e.inputs, NamedTerm{"typeid(" + name + ")", ITag(v), "int"})
 		return
-	case *types.Signature, *types.Chan:
+	case *types.Signature, *types.Chan, *types.Array:
+		return
+	}
+	if s := sortOf(t); s == "Opaque" || strings.HasPrefix(s, "TP_") {
 		return
 	}
 	e.inputs = append(e.inputs, NamedTerm{name, v, typeKey(t)})
